@@ -964,6 +964,11 @@ def _check(ctx, rng, R, k, prec, names_sx, I):
             ctx.violation(key, "precision=%s; %s" % (N, desc), "re-entry text %r evaluates to the value" % rt[:120], problem,
                           how + "; then execute(stringify_result(result_box.value, True)) in a fresh environment")
     prec.set(6)
+    # the re-entry text goes back into the SAME session (that is where the GUI puts it): a session whose variables are named like
+    # units — also like the base-unit symbols the display spells results with — must get the value back from it
+    import namespace_common
+    namespace_common.run(ctx, "ns", reentry=True)
+    namespace_common.run(ctx, "ns", reentry=True)
     ctx.cov["reentry_evaluations"] = n_reentry
     ctx.cov["kinds_seen"] = sorted(kinds_seen)
     ctx.correspond("display", disp_cases, describe=lambda i: "%s @%s" % (i["desc"], i["N"]))
